@@ -42,3 +42,20 @@ Theorem scan_safe : forall strptime_o fmt data,
   exists r, scan_loop strptime_o (S (length fmt)) fmt data ps0 = OK r.
 Proof. exact scan_safe_lemma. Qed.
 Print Assumptions scan_safe.
+
+From CCTZ Require Import FinishDefs FinishProofs.
+
+(* everything parse() does after the scanning loop, when the fields are read in UTC *)
+Theorem finish_utc_correct : forall tz utc data s,
+  reset_to_builtin_utc 0 = OK utc ->
+  (ps_saw_offset s = true \/ tz = utc) ->
+  ps_saw_s s = false -> ps_week_num s = -1 ->
+  skip_space data = [] ->
+  0 <= tm_sec (ps_tm s) <= 60 -> 0 <= tm_min (ps_tm s) <= 59 -> 0 <= tm_hour (ps_tm s) <= 23 ->
+  1 <= tm_mday (ps_tm s) <= 31 -> 0 <= tm_mon (ps_tm s) <= 11 ->
+  -86399 <= ps_offset s <= 86399 -> int64 (ps_year s) -> -2147483648 <= tm_year (ps_tm s) <= 2147483647 ->
+  (ps_twelve s && ps_afternoon s = false) ->
+  parse_finish tz utc (Some (data, s)) = OK (finish_expected s).
+Proof. exact finish_utc_correct_lemma. Qed.
+Print Assumptions finish_utc_correct.
+
